@@ -124,16 +124,21 @@ BlanksLine(tx, new, R) ==
   R[2] <= Indent(Line(tx, R[1])) /\ ~Blank(Line(tx, R[1])) /\ Blank(Line(new, R[1]))
 
 (* the edit ends in trivia that is now trailing: after the edit, the rest of its *)
-(* last line is blank or a comment, and the edit itself ends with a blank or     *)
-(* brings a comment                                                              *)
+(* last line is blank or a comment, and the edit itself ends with a blank, at     *)
+(* the start of a line, or brings a comment                                       *)
 TrailingWs(new, R, p) ==
   LET k  == Len(p)
       ll == Line(new, R[1] + k - 1)
       c1 == IF k = 1 THEN R[2] + Len(p[1]) ELSE Len(p[k])
       rest == SubSeq(ll, c1 + 1, Len(ll))
-  IN /\ (Blank(rest) \/ rest[Indent(rest) + 1] = 35)
-     /\ \/ (c1 >= 1 /\ c1 <= Len(ll) /\ IsWs(ll[c1]))
-        \/ HasAny(p, 35)
+  IN \/ Has(p[k], 35)
+     \/ /\ (Blank(rest) \/ rest[Indent(rest) + 1] = 35)
+        /\ (c1 = 0 \/ (c1 <= Len(ll) /\ IsWs(ll[c1])))
+
+(* a ';' is the first thing after the rectangle on its line                    *)
+SemiAfter(tx, R) ==
+  LET ll == Line(tx, R[3])  rest == SubSeq(ll, R[4] + 1, Len(ll))
+  IN ~Blank(rest) /\ rest[Indent(rest) + 1] = 59
 
 Bslash(tx, new, R, p) ==
   \/ HasAny(p, 92)
@@ -162,6 +167,7 @@ FxPart(tx, new, T, P, i, R, p) ==
   \o Flag(IndentChange(tx, new, R, p), "indent")
   \o Flag(BlanksLine(tx, new, R), "blankln")
   \o Flag(TrailingWs(new, R, p), "tws")
+  \o Flag(SemiAfter(tx, R), "semiafter")
   \o Flag(HasAny(p, 35), "hash")
   \o Flag(HasAny(p, 59) \/ HasAny(RectText(tx, R), 59), "semi")
   \o Flag(Bslash(tx, new, R, p), "bslash")
